@@ -25,10 +25,10 @@ def log(*a):
 def limit():
     resource.setrlimit(resource.RLIMIT_AS, (MEM_LIMIT, MEM_LIMIT))
 
-def run(cmd, timeout=None, cwd=None, env=None):
+def run(cmd, timeout=None, cwd=None, env=None, nolimit=False):
     t0 = time.time()
     try:
-        p = subprocess.run(cmd, stdout=subprocess.PIPE, stderr=subprocess.PIPE, timeout=timeout, cwd=cwd, preexec_fn=limit, env=env)
+        p = subprocess.run(cmd, stdout=subprocess.PIPE, stderr=subprocess.PIPE, timeout=timeout, cwd=cwd, preexec_fn=(None if nolimit else limit), env=env)
         return p.returncode, p.stdout.decode("utf-8", "replace"), p.stderr.decode("utf-8", "replace"), time.time() - t0
     except subprocess.TimeoutExpired as e:
         return -9, (e.stdout or b"").decode("utf-8", "replace"), "TIMEOUT", time.time() - t0
@@ -162,6 +162,17 @@ def classify(ob, job):
        re.search(r"(postcondition|precondition|assigns|loop_invariant|loop_decreases|loop_assigns|loop_step_unwinding)", name):
         in_repo_or_contract = True
         return "contract", [p for p in job["props"] if p not in ("C02",)] or job["props"]
+    if ".overflow." in name and "type conversion" in desc:
+        # --conversion-check: only float -> integer conversions are undefined behaviour ([conv.fpint]); integer narrowing is
+        # implementation-defined (modular on this ABI) and is what the compare-back idiom intends
+        if "float to" in desc or "double to" in desc or "floatbv" in desc:
+            return ("safety", ["C02"]) if os.path.basename(f).startswith("gen.") else ("internal", [])
+        return "ignored", []
+    if "arithmetic overflow on signed shl" in desc:
+        # CBMC applies C11 6.5.7p4 (UB when the result is not representable in the signed type); C++17 [expr.shift]/2 defines the
+        # result whenever E1 is non-negative and E1*2^E2 fits the corresponding unsigned type. Negative E1 and oversized shift
+        # distances are still checked by --undefined-shift-check. Reported, not an obligation.
+        return "ignored", []
     base = os.path.basename(f)
     if base.startswith("gen.") or "/models/" in f or base in ("sink.h", "sv.h"):
         if "unwind" in name:
@@ -294,7 +305,7 @@ def load_known_findings():
     return {f["id"]: f for f in json.load(open(p)).get("findings", [])}
 
 def relevant(ob, prop):
-    if ob["class"] in ("canary", "internal"):
+    if ob["class"] in ("canary", "internal", "ignored"):
         return False
     return prop in ob["props"]
 
@@ -305,7 +316,7 @@ def trace_inputs(ob, entry):
             continue
         fn = (st.get("sourceLocation") or {}).get("function", "")
         lhs = st.get("lhs", "")
-        if fn != entry or not lhs or lhs.startswith("__CPROVER") or "return_value" in lhs and "nondet" not in lhs:
+        if not fn.startswith("h_") or not lhs or lhs.startswith("__CPROVER") or "return_value" in lhs and "nondet" not in lhs:
             continue
         v = st.get("value", {})
         if "binary" in v or "data" in v:
@@ -319,16 +330,16 @@ def native_replay(cfg, rfile):
         return "no-driver", ""
     exe = os.path.join(BUILD, cfg["name"], "replay_native")
     os.makedirs(os.path.dirname(exe), exist_ok=True)
-    cmd = ["g++", "-std=c++17", "-O0", "-g", "-fsanitize=address,undefined", "-fno-sanitize=alignment", "-fno-sanitize-recover=undefined", "-w",
+    cmd = ["g++", "-std=c++17", "-O0", "-g", "-fsanitize=address,undefined,float-cast-overflow", "-fno-sanitize=alignment", "-fno-sanitize-recover=undefined", "-w",
            "-I" + REPO + "/include", "-I" + REPO + "/src", "-I" + VERIF, src, "-o", exe]
     rc, out, err, dt = run(cmd, timeout=900)
     if rc != 0:
         return "build-failed", (out + err)[-2000:]
-    rc, out, err, dt = run([exe, rfile], timeout=300)
+    rc, out, err, dt = run([exe, rfile], timeout=300, nolimit=True)   # ASan cannot reserve its shadow under RLIMIT_AS
     txt = (out + err)[-4000:]
     if "REPRODUCED" in out and "NOT-REPRODUCED" not in out:
         return "reproduced", txt
-    if rc != 0 and ("AddressSanitizer" in err or "runtime error" in err):
+    if re.search(r"runtime error:|ERROR: AddressSanitizer: (?!failed)", err):
         return "reproduced", txt
     return "not-reproduced", txt
 
@@ -452,6 +463,8 @@ def run_and_report(prop, tier, targets, jobs, t0, extra_cov=None, extra_assumpti
                 if ob["status"] == "FAILURE": canaries["expected_fail"] += 1
                 else: canaries["vacuous"].append(job["id"])
                 continue
+            if ob["class"] == "ignored":
+                continue
             if ob["class"] == "internal":
                 if ob["status"] == "FAILURE":
                     undecided.append({"job": job["id"], "why": "harness-internal check failed: %s %s" % (ob["name"], ob["desc"])})
@@ -514,7 +527,7 @@ def run_and_report(prop, tier, targets, jobs, t0, extra_cov=None, extra_assumpti
     vio_out = []
     seen_v = set()
     for job, ob in violations:
-        key = (job["id"], ob["name"])
+        key = (ob["name"], ob["desc"]) if ob["class"] in ("safety", "model") else (job["id"], ob["name"])
         if key in seen_v: continue
         seen_v.add(key); nviol += 1
         rfile, confirmed = make_replay(targets[job["target"]], job, ob, prop, tier)
